@@ -566,8 +566,23 @@ func TestRaceFreeRunning(t *testing.T) {
 		// a block is executed by two transactions running in parallel (disjoint keys) while a
 		// third goroutine looks keys up through the same BlockCache; then the block commits
 		mkCommit := func(b *fblock) {
-			bc := statecache.NewBlockCache(c, statecache.Block{Hash: b.Hash, PrevHash: b.Prev})
+			// some blocks are created under a temporary hash and get their final hash while their transactions and
+			// the reader are still at work (the hash is always set before the block commits)
+			rename := len(b.Writes)%2 == 1
+			first := b.Hash
+			if rename {
+				first = "tmp-" + b.Hash
+			}
+			bc := statecache.NewBlockCache(c, statecache.Block{Hash: first, PrevHash: b.Prev})
 			var twg sync.WaitGroup
+			if rename {
+				twg.Add(1)
+				go func() {
+					defer twg.Done()
+					runtime.Gosched()
+					bc.SetBlockHash(b.Hash)
+				}()
+			}
 			for half := 0; half < 2; half++ {
 				half := half
 				twg.Add(1)
